@@ -181,9 +181,12 @@ def scripted():
             O('open_file', d='d0', name='LONGFI~1.TXT', mode='ReadOnly', as_='f0'),
             O('read', f='f0', n=2 * upc), O('seek_start', f='f0', u=upc - 1), O('read', f='f0', n=2), O('close_file', f='f0'),
             O('open_file', d='d0', name='LONGFI~1.TXT', mode='Append', as_='f0'),
-            O('write', f='f0', n=2), O('seek_start', f='f0', u=1), O('write', f='f0', n=upc), O('flush', f='f0'),
-            O('open_dir', d='d0', name='SUB', as_='d1'), O('iterate', d='d1'),
-            O('open_dir', d='d1', name='DEEP', as_='d2'), O('iterate', d='d2'),
+            O('write', f='f0', n=2), O('write', f='f0', n=1), O('write', f='f0', n=upc + 1),     # consecutive writes on a high->low chain
+            O('seek_start', f='f0', u=upc + 1), O('write', f='f0', n=1), O('write', f='f0', n=1), O('seek_start', f='f0', u=0), O('read', f='f0', n=5 * upc),
+            O('seek_start', f='f0', u=1), O('write', f='f0', n=upc), O('flush', f='f0'),
+            O('open_dir', d='d0', name='SUB', as_='d1'), O('iterate', d='d1'), O('lookup_all', d='d1'), O('lookup_all', d='d0'),
+            O('open_file', d='d1', name='F11.Z', mode='ReadOnly', as_='fl'), O('close_file', f='fl'), O('find', d='d1', name='F10.Z'),
+            O('open_dir', d='d1', name='DEEP', as_='d2'), O('iterate', d='d2'), O('lookup_all', d='d2'),
             O('open_dir', d='d2', name='..', as_='d3'), O('iterate', d='d3'),
             O('open_dir', d='d1', name='..', as_='d4'),
             O('open_dir', d='d0', name='.', as_='d5'), O('close_dir', d='d5'), O('close_dir', d='d4'),
@@ -230,11 +233,11 @@ def scripted():
     ops += [O('mkdir', d='d0', name='MORE'), O('delete', d='d0', name='N03.TXT'), O('mkdir', d='d0', name='SUBD'),
             O('open_dir', d='d0', name='SUBD', as_='d1')]
     ops += [x for i in range(15) for x in (O('open_file', d='d1', name='M%02d.TXT' % i, mode='Create', as_='f0'), O('close_file', f='f0'))]
-    ops += [O('iterate', d='d1'), O('close_dir', d='d1')] + epilogue()
+    ops += [O('iterate', d='d1'), O('lookup_all', d='d1'), O('lookup_all', d='d0'), O('close_dir', d='d1')] + epilogue()
     add('S4-G16b', img, ops, img[1])
     img = image_of('G32a', tree='T0', nfree=5)
     ops = prologue() + [x for i in range(17) for x in (O('open_file', d='d0', name='N%02d.TXT' % i, mode='Create', as_='f0'), O('write', f='f0', n=1 if i % 8 == 0 else 0), O('close_file', f='f0'))]
-    ops += [O('iterate', d='d0'), O('delete', d='d0', name='N16.TXT'), O('find', d='d0', name='N16.TXT'), O('find', d='d0', name='N15.TXT')] + epilogue()
+    ops += [O('iterate', d='d0'), O('lookup_all', d='d0'), O('delete', d='d0', name='N16.TXT'), O('find', d='d0', name='N16.TXT'), O('find', d='d0', name='N15.TXT')] + epilogue()
     add('S4-G32a', img, ops, img[1])
 
     # S5: handles, limits, re-entrancy (C08), on several limit tuples and id offsets
@@ -296,6 +299,34 @@ def scripted():
                 O('close_dir', d='dnp'), O('close_dir', d='dn'), O('close_dir', d='d1')] + epilogue()
         add('S6-' + gname, img, ops, img[1], lim=(4, 4, 1))
 
+    # S9: a chain that runs from high to low cluster numbers because lower clusters were freed meanwhile
+    for gname in ['G16a', 'G32a', 'G16c']:
+        img = image_of(gname, tree='T0', nfree=8, window_mid=(gname == 'G16a'))
+        upc = img[1]
+        ops = prologue() + [O('open_file', d='d0', name='A.BIN', mode='Create', as_='fa'), O('write', f='fa', n=2 * upc), O('close_file', f='fa'),
+                            O('open_file', d='d0', name='B.BIN', mode='Create', as_='fb'), O('write', f='fb', n=1),
+                            O('open_file', d='d0', name='A.BIN', mode='Truncate', as_='fa2'), O('close_file', f='fa2'), O('delete', d='d0', name='A.BIN'),
+                            O('write', f='fb', n=upc + 1), O('write', f='fb', n=1), O('write', f='fb', n=upc), O('write', f='fb', n=2),
+                            O('seek_start', f='fb', u=0), O('read', f='fb', n=4 * upc), O('seek_end', f='fb', u=1), O('write', f='fb', n=3),
+                            O('seek_start', f='fb', u=0), O('read', f='fb', n=4 * upc), O('close_file', f='fb')] + epilogue()
+        add('S9-' + gname, img, ops, upc)
+
+    # S10: entries beyond the first block of a directory: FAT16 root of two blocks, directory cluster of several blocks
+    img = image_of('G16a', tree='T0', nfree=6)
+    ops = prologue()
+    for i in range(20):
+        ops += [O('open_file', d='d0', name='E%02d.TXT' % i, mode='Create', as_='e%d' % i), O('write', f='e%d' % i, n=1 if i % 3 == 0 else 0), O('close_file', f='e%d' % i)]
+    ops += [O('iterate', d='d0'), O('lookup_all', d='d0'), O('open_file', d='d0', name='E18.TXT', mode='Append', as_='x'), O('write', f='x', n=2), O('close_file', f='x'),
+            O('delete', d='d0', name='E17.TXT'), O('mkdir', d='d0', name='LATE')] + epilogue()
+    add('S10-G16a', img, ops, img[1])
+    img = image_of('G16c', tree='T0', nfree=4, bounds=[0, 256])
+    ops = prologue() + [O('mkdir', d='d0', name='BIGD'), O('open_dir', d='d0', name='BIGD', as_='d1')]
+    for i in range(20):
+        ops += [O('open_file', d='d1', name='E%02d.TXT' % i, mode='Create', as_='e%d' % i), O('write', f='e%d' % i, n=1 if i % 4 == 0 else 0), O('close_file', f='e%d' % i)]
+    ops += [O('iterate', d='d1'), O('lookup_all', d='d1'), O('open_file', d='d1', name='E19.TXT', mode='Truncate', as_='x'), O('write', f='x', n=3), O('close_file', f='x'),
+            O('mkdir', d='d1', name='SUBSUB'), O('open_dir', d='d1', name='SUBSUB', as_='d2'), O('iterate', d='d2'), O('close_dir', d='d2'), O('close_dir', d='d1')] + epilogue()
+    add('S10-G16c', img, ops, img[1])
+
     # S7: several volumes at once
     img = image_multi()
     upc = img[1]
@@ -331,7 +362,7 @@ def scripted():
 # ------------------------------------------------------------------------------------------------
 # seeded random histories
 
-GOOD_NAMES = ['A.TXT', 'B.DAT', 'C', 'LONGNAME.EXT', 'README.TXT', 'EMPTY.DAT', 'TEST', 'NEW.BIN', 'Z9_-~!#.$%&', 'x.y', 'TEST.DAT',
+GOOD_NAMES = ['F00.Z', 'F10.Z', 'F11.Z', 'A.TXT', 'B.DAT', 'C', 'LONGNAME.EXT', 'README.TXT', 'EMPTY.DAT', 'TEST', 'NEW.BIN', 'Z9_-~!#.$%&', 'x.y', 'TEST.DAT',
               'SUB', 'DEEP', 'RO.TXT', 'ZC.DAT', 'X.BIN', 'LONGFI~1.TXT', 'D1', 'D2']
 BAD_NAMES = ['BAD*NAME', 'WAYTOOLONGNAME', 'A.LONGEXT', 'a b', '']
 MODES = ['ReadOnly', 'Append', 'Truncate', 'Create', 'CreateOrTruncate', 'CreateOrAppend']
@@ -406,7 +437,10 @@ def random_history(rng, hid, length=60):
             closed['d'].append(d_)
             ops.append(O('close_dir', d=d_, api=rng.choice(['raw', 'raii', 'drop'])))
         elif r < 0.93 and dirs_:
-            ops.append(O(rng.choice(['iterate', 'iterate_lfn']), d=rng.choice(dirs_), reent=rng.random() < 0.2))
+            d_ = rng.choice(dirs_)
+            ops.append(O(rng.choice(['iterate', 'iterate_lfn']), d=d_, reent=rng.random() < 0.2))
+            if rng.random() < 0.4:
+                ops.append(O('lookup_all', d=d_))
         elif r < 0.95 and dirs_:
             ops.append(O('find', d=rng.choice(dirs_), name=rng.choice(GOOD_NAMES + ['..', '.'])))
         elif r < 0.97:
